@@ -121,7 +121,19 @@ var words = []string{"cat", "dog", "user", "task", "item", "order", "file", "not
 var fields = []string{"id", "name", "age", "size", "kind", "email", "count", "title", "flag", "price", "code", "text"}
 
 func (g *gen) scalar() (string, string) {
-	switch g.r.Intn(7) {
+	switch g.r.Intn(8) {
+	case 6:
+		// an `or` rule over scalar type names, items possibly repeated (accepted by the builder)
+		g.feat("or-rule-list")
+		names := []string{"integer", "string", "boolean", "float"}
+		items := []string{`"integer"`}
+		for i := 0; i < g.r.Range(1, 3); i++ {
+			items = append(items, fmt.Sprintf("%q", names[g.r.Intn(len(names))]))
+		}
+		if g.r.Chance(1, 2) {
+			items[0], items[len(items)-1] = items[len(items)-1], items[0]
+		}
+		return fmt.Sprint(g.r.Intn(100)), "{or: [" + strings.Join(items, ", ") + "]}"
 	case 0:
 		return fmt.Sprint(g.r.Intn(1000)), ""
 	case 1:
